@@ -600,7 +600,11 @@ def check_main(prop, tier, seed, only=None, nshard=None, verbose=True):
             where = ""
             for line in err.splitlines():
                 if "/src/" in line and (" in " in line):
-                    where = line.strip().split(" in ")[-1][:120]
+                    # "#1 0x... in func /verif/.build/b_asan_<hash>/src/mod_cider/file.c:146" -> "func mod_cider/file.c"
+                    where = line.strip().split(" in ")[-1]
+                    fn = where.split(" ")[0]
+                    path = where.split("/src/")[-1].split(":")[0] if "/src/" in where else ""
+                    where = (fn + " " + path).strip()[:120]
                     break
             violations.append({"sig": [cur["subcheck"], "crash", kind, where], "case": cur["case"],
                                "detail": {"stderr": err[-2500:]}, "subcheck": cur["subcheck"],
@@ -707,11 +711,11 @@ def check_main(prop, tier, seed, only=None, nshard=None, verbose=True):
     import shutil
 
     shutil.rmtree(rundir, ignore_errors=True)
+    for h in harness_errors[:8]:
+        print("HARNESS-ERROR " + h, file=sys.stderr)
     if new_lines:
         return 1
     if harness_errors:
-        for h in harness_errors[:5]:
-            print("HARNESS-ERROR " + h, file=sys.stderr)
         return 2
     return 0
 
